@@ -738,6 +738,8 @@ where
         storage: &Storage<D>,
         index: GraphIndex,
     ) -> Result<GraphIndex, DbError> {
+        #[cfg(agdb_verif)]
+        crate::verif::probe_tick();
         Ok(GraphIndex::from(-self.data.from_meta(storage, index)?))
     }
 
@@ -746,6 +748,8 @@ where
         storage: &Storage<D>,
         index: GraphIndex,
     ) -> Result<GraphIndex, DbError> {
+        #[cfg(agdb_verif)]
+        crate::verif::probe_tick();
         Ok(GraphIndex::from(-self.data.to_meta(storage, index)?))
     }
 
@@ -807,6 +811,8 @@ where
             let mut previous = first_index;
 
             while self.data.from_meta(storage, previous)? != -index.0 {
+                #[cfg(agdb_verif)]
+                crate::verif::probe_tick();
                 previous = GraphIndex::from(self.data.from_meta(storage, previous)?);
             }
 
@@ -825,6 +831,8 @@ where
         let mut edge = GraphIndex::from(-self.data.from(storage, index)?);
 
         while edge.is_valid() {
+            #[cfg(agdb_verif)]
+            crate::verif::probe_tick();
             self.remove_to_edge(storage, edge)?;
             let current_index = -edge.0;
             edge = GraphIndex::from(-self.data.from_meta(storage, edge)?);
@@ -849,6 +857,8 @@ where
             let mut previous = first_index;
 
             while self.data.to_meta(storage, previous)? != -index.0 {
+                #[cfg(agdb_verif)]
+                crate::verif::probe_tick();
                 previous = GraphIndex::from(self.data.to_meta(storage, previous)?);
             }
 
@@ -867,6 +877,8 @@ where
         let mut edge_index = GraphIndex::from(-self.data.to(storage, index)?);
 
         while edge_index.is_valid() {
+            #[cfg(agdb_verif)]
+            crate::verif::probe_tick();
             self.remove_from_edge(storage, edge_index)?;
             let current_index = -edge_index.0;
             edge_index = GraphIndex::from(-self.data.to_meta(storage, edge_index)?);
